@@ -102,6 +102,7 @@ fn c18_len() {
     assert!(BitBoard(a).len() == count(a));
 }
 
+// <private-state>
 // O-C18.iter.step: `next` returns the lowest member, removes exactly it, `len` is the exact
 // remaining length (ascending order / exactly-once / exhaustion follow by induction on the size)
 #[kani::proof]
@@ -139,6 +140,7 @@ fn c18_iter_step() {
     }
 }
 
+// </private-state>
 // O-C18.collect (bounded stand-in: up to 4 squares): collecting squares builds their set
 #[kani::proof]
 #[kani::unwind(6)]
@@ -157,6 +159,7 @@ fn c18_collect_bounded4() {
     assert!(mem(bb.0, t) == expect);
 }
 
+// <private-state>
 // O-C18.subsets.step: the carry-rippler step on the real `next`
 #[kani::proof]
 fn c18_subsets_step() {
@@ -186,6 +189,7 @@ fn c18_subsets_step() {
     assert!(done.next().is_none() && done.finished);
 }
 
+// </private-state>
 // O-C18.flips: rank / file flips move each member to its mirrored square and are involutions
 #[kani::proof]
 fn c18_flips() {
@@ -199,4 +203,57 @@ fn c18_flips() {
     assert!(mem(x.flip_files().0, mirror_file) == mem(a, s));
     assert!(x.flip_ranks().flip_ranks() == x);
     assert!(x.flip_files().flip_files() == x);
+}
+
+// O-C18.subsets.prefix (public API only, robust against a change of the iterator's representation):
+// for every set, the first outputs of iter_subsets() are the empty set and then, step by step, the numeric
+// successor among the subsets; the iterator ends exactly after the full set has been delivered.
+// (bounded prefix of 4 outputs; the unbounded statement is O-C18.subsets.step + induction)
+#[kani::proof]
+fn c18_subsets_prefix4() {
+    let set: u64 = kani::any();
+    let mut it = BitBoard(set).iter_subsets();
+    let mut prev: Option<u64> = None;
+    let mut k = 0;
+    while k < 4 {
+        let r = it.next();
+        match prev {
+            None => assert!(r == Some(BitBoard::EMPTY)),
+            Some(p) => {
+                if p == set {
+                    // the full set was the last subset
+                    assert!(r.is_none());
+                } else {
+                    let succ = ((p | !set).wrapping_add(1)) & set;
+                    assert!(r == Some(BitBoard(succ)));
+                }
+            }
+        }
+        match r {
+            Some(b) => prev = Some(b.0),
+            None => break,
+        }
+        k += 1;
+    }
+}
+
+// O-C18.iter.prefix (public API only): the first outputs of iteration are the members in ascending order
+#[kani::proof]
+fn c18_iter_prefix3() {
+    let a: u64 = kani::any();
+    let mut it = BitBoard(a).into_iter();
+    let mut rest = a;
+    let mut k = 0;
+    while k < 3 {
+        assert!(ExactSizeIterator::len(&it) == rest.count_ones() as usize);
+        let r = it.next();
+        if rest == 0 {
+            assert!(r.is_none());
+            break;
+        }
+        let low = rest.trailing_zeros();
+        assert!(r.map(|s| s as u32) == Some(low));
+        rest &= rest - 1;
+        k += 1;
+    }
 }
